@@ -89,9 +89,18 @@ class SlotImpl:
             elif op == 'delitem':
                 del c[int(ws[1])]
             elif op == 'setslice':
-                c[int(ws[1]):int(ws[2])] = [E[int(x)] for x in ws[3:]]
+                # the operand in the forms a caller may use: a list, a tuple, a generator
+                vals = [E[int(x)] for x in ws[3:]]
+                form = (len(self.items()) + len(vals)) % 3
+                c[int(ws[1]):int(ws[2])] = vals if form == 0 else (tuple(vals) if form == 1 else (v for v in vals))
+            elif op == 'delslice3':
+                del c[int(ws[1]):int(ws[2]):int(ws[3])]
+            elif op == 'setslice3':
+                c[int(ws[1]):int(ws[2]):int(ws[3])] = [E[int(x)] for x in ws[4:]]
+            elif op == 'imul':
+                c *= int(ws[1])
             out = 'ok'
-        except (KeyError, IndexError, ValueError):
+        except Exception:
             out = 'err'
         return f"{out} items={','.join(map(str, self.items()))} notifs={';'.join(self.notifs)}"
 
@@ -107,6 +116,11 @@ def slot_ops(kind, n, univ):
     if kind == 'list':
         # `l[a:b] = ys` and `del l[a:b]` (ys empty), every pair of bounds
         ops += [f'setslice {a} {b}{ys}' for a in range(n + 2) for b in range(n + 2) for ys in ('', ' 0', ' 1 2', ' 0 0 1')]
+        # extended slices `l[a:b:k]` (deleted; assigned with as many, fewer and more elements than leave), and `l *= n`
+        ops += [f'delslice3 {a} {b} {k}' for a in range(n + 1) for b in range(n + 2) for k in (2, 3)]
+        ops += [f'setslice3 {a} {b} {k}{ys}' for a in range(n + 1) for b in range(n + 2) for k in (2, 3)
+                for ys in ('', ' 0', ' 1 2', ' 2 0 1')]
+        ops += [f'imul {k}' for k in (-1, 0, 1, 2, 3)]
     return ops
 
 
